@@ -147,7 +147,7 @@ theorem buildJob_nnf {R : Nat} (E : Engine) (hE : EngNNF E) (d : Defects) (cx : 
         obtain ⟨rv, w2⟩ := r
         cases he
         exact hst w2 hss
-      · have h1 := hE { cx with noOob := true, unlocked := false, isRedo := false,
+      · have h1 := hE { cx with noOob := true, unlocked := false, isRedo := false, cycles := t :: cx.cycles,
                                 parent := if d.oobRecordsDepsOnCaller then cx.parent else none }
           (if w1.oobRev then ts.eraseDups.reverse else ts.eraseDups) w1
         generalize E.ifchangeCmd _ (if w1.oobRev then ts.eraseDups.reverse else ts.eraseDups) w1 = r1 at h1 he
